@@ -54,6 +54,8 @@ class G:
             return "${macroname | 'direct'}"
         if c < 0.75:
             return "${loc | 'noloc'}"
+        if c < 0.87:
+            return "${%s | 'unset'}" % r.choice(['gA', 'gB'])        # globals: may have been (re)defined by a macro used earlier
         return r.choice(['a', 'b ', '&amp;'])
 
     def plain(self, scope, depth):
@@ -63,13 +65,14 @@ class G:
         attrs = []
         sc = list(scope)
         c = r.random()
-        if c < 0.2:
+        if c < 0.15:
             attrs.append(('tal:define', 'loc %s' % r.choice(["'L'", 'n', 'u'])))
             sc.append('loc')
         elif c < 0.3:
-            g = self.fresh('g')
-            attrs.append(('tal:define', 'global %s string:G%s' % (g, g)))
-            sc.append(g)
+            # a small pool of global names, each definition with its own value: a macro may *re*define a global that
+            # the caller or an earlier macro has already defined
+            g = r.choice(['gA', 'gB'])
+            attrs.append(('tal:define', 'global %s string:%s' % (g, self.fresh('G'))))
         elif c < 0.4:
             attrs.append(('tal:condition', r.choice(['flag', 'not flag', 'n'])))
         elif c < 0.5:
@@ -263,8 +266,14 @@ def make(rng):
             names.append(g.extension(scope, e1))
     # every caller runs in its own copy of the scope (an in-place macro): fillers a use leaves behind in its scope are the
     # known findings D-09a/b and are probed separately
-    callers = [{'k': 'el', 'tag': 'div', 'attrs': [], 'kids': [g.use(scope, 2, rng.choice(names))], 'macro': g.fresh('w'), 'slots': []}
-               for _ in range(rng.randint(1, 3))]
+    def caller():
+        kids = []
+        if rng.random() < 0.4:
+            kids.append({'k': 'el', 'tag': 'a', 'attrs': [('tal:define', 'global %s string:%s' % (rng.choice(['gA', 'gB']), g.fresh('G')))], 'kids': []})
+        kids.append(g.use(scope, 2, rng.choice(names)))
+        kids.append("|${gA | 'unset'}${gB | 'unset'}")         # read the globals after the use
+        return {'k': 'el', 'tag': 'div', 'attrs': [], 'kids': kids, 'macro': g.fresh('w'), 'slots': []}
+    callers = [caller() for _ in range(rng.randint(1, 3))]
     callers.append(g.plain(scope, 1))
     lib = [g.macros[n] for n in g.order]
     return g, lib, callers
